@@ -1,6 +1,9 @@
 // Correspondence harness for nitro::lang::{split,join,replace_all,starts_with} (C17).
 #include "common.hpp"
 
+#include <iterator>
+#include <sstream>
+
 #include <nitro/lang/string.hpp>
 
 static std::string handle(const std::vector<std::string>& f)
@@ -36,6 +39,23 @@ static std::string handle(const std::vector<std::string>& f)
         auto b = nitro::lang::join(xs, nv::unhex(f.at(2)));
         if (a != b)
             return "overloads-differ";
+        // the iterator overload takes *input* iterators: a single-pass range (an istream_iterator over the
+        // elements, when none of them is empty or contains white space) has to give the same text
+        bool tokenisable = !xs.empty();
+        for (auto& x : xs)
+            if (x.empty() || x.find_first_of(" \t\n\v\f\r") != std::string::npos)
+                tokenisable = false;
+        if (tokenisable)
+        {
+            std::string all;
+            for (auto& x : xs)
+                all += x + "\n";
+            std::istringstream in(all);
+            auto c = nitro::lang::join(std::istream_iterator<std::string>(in), std::istream_iterator<std::string>(),
+                                       nv::unhex(f.at(2)));
+            if (c != a)
+                return "single-pass-range-differs " + nv::hex(c);
+        }
         return "ok " + nv::hex(a);
     }
     return "bad-op";
